@@ -200,6 +200,37 @@ def h_bounds(fac):
     return h
 
 
+def h_ampbounds(fac, bpix):
+    """the amplitude limits handed to the optimiser leave room for the true peak: for a beam-sized (or larger) source the
+    brightest pixel is at most a factor 2**(2/b**2) below the peak (peak on a pixel corner, b = minor FWHM of the pixel beam),
+    whatever the brightest pixel value, the local rms and the clip levels are"""
+    from fractions import Fraction
+    drop = Fraction(2.0 ** (2.0 / bpix ** 2)).limit_denominator(10 ** 9)
+
+    def h(c):
+        amp, rms, ic, oc = real('amp'), real('rms'), real('innerclip'), real('outerclip')
+        c.assume(rms.e >= 0)
+        c.assume(oc.e > 0)
+        c.assume(ic.e >= oc.e)
+        c.assume(amp.e != 0)
+
+        class RmsImg:
+            def __getitem__(self, k):
+                return rms
+
+        class PB:
+            a, b, pa = bpix * 1.0, bpix * 1.0, 0.0
+        f = fac(dict(core.BUILTINS, np=loader.NPProxy(), math=math))
+        lo, hi = f(amp, PB(), RmsImg(), 3, 4, ic, oc)
+        L = core.lift
+        true_peak = amp.e * z3.RealVal(str(drop))
+        tag = 'amp-bounds[beam %g px]' % bpix
+        c.oblige(tag + ':the limits bracket the brightest pixel', z3.And(L(lo) <= amp.e, amp.e <= L(hi)))
+        c.oblige(tag + ':the limits admit the peak of a corner-centred beam-sized source (brightest pixel x 2**(2/b**2))', z3.And(L(lo) <= true_peak, true_peak <= L(hi)))
+        return dict()
+    return h
+
+
 # ------------------------------------------------------------------ replay oracle: the property's own closed loop (noise-free)
 def closed_loop(seed=0, trials=3, elongated=None, docov=True):
     """inject an isolated Gaussian with a real WCS, run the real blind finder with forced bkg/rms, compare"""
@@ -229,6 +260,9 @@ def closed_loop(seed=0, trials=3, elongated=None, docov=True):
                 hdr['BMAJ'], hdr['BMIN'], hdr['BPA'] = bm * 1.05, bm, elongated[1]
             helper = wh.WCSHelper.from_header(hdr)
             r0, c0 = N / 2 + rng.uniform(-8, 8), N / 2 + rng.uniform(-8, 8)
+            if special and special.get('corner'):
+                # true peak on a pixel corner: as far from every pixel centre as it can be (helper coordinates are 1-based pixel centres)
+                r0, c0 = math.floor(r0) + 0.5, math.floor(c0) + 0.5
             ra, dec = helper.pix2sky((r0 + 1, c0 + 1))
             a, b, pa = bm * rng.uniform(1.2, 2.0) * 3600, bm * rng.uniform(1.0, 1.15) * 3600, rng.uniform(-85, 85)
             if elongated and t == 0 and not special:
@@ -240,6 +274,19 @@ def closed_loop(seed=0, trials=3, elongated=None, docov=True):
                 a, b, pa = bm * special.get('ratio', 3.0) * 3600, bm * 1.0 * 3600, special.get('pa', 45.0)
                 if special.get('snr'):
                     rmsv, clips = abs(peak) / special['snr'], (5, 4)
+                if special.get('hisnr'):
+                    rmsv, clips = abs(peak) / special['hisnr'], (10, 8)
+                if special.get('beam_ratio'):
+                    # elongated beam (BPA 0), source axes compared with the beam's axis by axis: a >= bmaj, b >= bmin
+                    hdr['BMAJ'], hdr['BMIN'], hdr['BPA'] = bm * special['beam_ratio'], bm, 0.0
+                    helper = wh.WCSHelper.from_header(hdr)
+                    a, b = bm * special['beam_ratio'] * special.get('ratio', 1.5) * 3600, bm * special.get('minor', 1.05) * 3600
+                if special.get('beam_pix'):
+                    # beam sampling: FWHM of the (circular) beam in pixels
+                    bm = special['beam_pix'] * scale
+                    hdr['BMAJ'], hdr['BMIN'] = bm, bm
+                    helper = wh.WCSHelper.from_header(hdr)
+                    a, b = bm * special.get('ratio', 3.0) * 3600, bm * 1.0 * 3600
             xo, yo, sx, sy, th = helper.sky2pix_ellipse((ra, dec), a / 3600, b / 3600, pa)
             s = 2 * math.sqrt(2 * math.log(2))
             x, y = real_np.mgrid[0:N, 0:N].astype(float)
@@ -372,7 +419,7 @@ def run(rep):
                 if rep.finding('C01/K-jacobian/%s' % (cls or 'row'), dict(jacobian=True), detail or ob['name'], reproduced=bad) != 'not-reproduced':
                     jdone = True
     rep.end_kernel()
-    rep.kernel('K-bounds', functions=[F + ':SourceFinder.estimate_lmfit_parinfo'], bounds='all island sizes xsize, ysize >= 1 and pixel beams a >= b > 0',
+    rep.kernel('K-bounds', functions=[F + ':SourceFinder.estimate_lmfit_parinfo'], bounds='all island sizes xsize, ysize >= 1 and pixel beams a >= b > 0; amplitude limits: all brightest-pixel values of either sign, rms >= 0, innerclip >= outerclip > 0, circular pixel beams of 2.5, 3, 4, 5, 6, 8, 16 pixels FWHM',
                assumes=['slice: the statements assigning sx_min/sx_max/sy_min/sy_max (backward-closed)', 'adequacy of the bounds for every source is NOT decided; only that they do not depend on the image axis the island is long in'])
     try:
         fac, text = slicer.slice_function(F, 'estimate_lmfit_parinfo', targets=['sx_min', 'sx_max', 'sy_min', 'sy_max'], params=['data', 'pixbeam'], cls='SourceFinder',
@@ -390,6 +437,29 @@ def run(rep):
                             break
                     rep.finding('C01/K-bounds/%s' % (cls or ob['name'].split(':')[-1]), dict(seed=5, elongated=list(el)), detail or ob['name'], reproduced=bool(bad))
             rep.sample(dict(kernel='K-bounds', slice=text[:700], obligations=[(o['name'], o['result']) for o in r['obligations']]))
+    except slicer.AnchorMissing as e:
+        rep.inconc('anchor-missing %s' % e)
+    try:
+        fac2, text2 = slicer.slice_function(F, 'estimate_lmfit_parinfo', targets=['amp_min', 'amp_max'], params=['amp', 'pixbeam', 'rmsimg', 'xo', 'yo', 'innerclip', 'outerclip'], cls='SourceFinder',
+                                            returns=['amp_min', 'amp_max'], flatten_loops=True)
+        adone = False
+        for bpix in (2.5, 3.0, 4.0, 5.0, 6.0, 8.0, 16.0):
+            st, res = explore(h_ampbounds(fac2, bpix))
+            rep.stats(st)
+            for r in res:
+                for ob in r['obligations']:
+                    rep.count(ob['result'], ob['name'])
+                    if ob['result'] == 'sat' and not adone:
+                        bad, cls, detail = None, None, None
+                        for hs in (500.0, 5000.0, 50000.0):
+                            sp = dict(pa=30.0, ratio=1.3, corner=True, hisnr=hs, beam_pix=max(3.0, bpix))
+                            bad, cls, detail = closed_loop(11, 1, elongated=sp)
+                            if bad:
+                                break
+                        if rep.finding('C01/K-bounds/amplitude-limit(beam=%gpx):%s' % (bpix, cls or 'admits-peak'), dict(seed=11, special=sp), detail or ob['name'], reproduced=bool(bad)) != 'not-reproduced':
+                            adone = True
+            if res:
+                rep.sample(dict(kernel='K-bounds', beam_pix=bpix, slice=text2[:500], obligations=[(o['name'], o['result']) for o in res[0]['obligations']]))
     except slicer.AnchorMissing as e:
         rep.inconc('anchor-missing %s' % e)
     rep.end_kernel()
@@ -413,6 +483,23 @@ def run(rep):
         rep.validated_runs(1)
         if bad:
             rep.finding('C01/K-closed-loop/%s:%s' % (name, cls), dict(seed=sd, special=sp), detail)
+    # beam-sized sources whose true peak lies on a pixel corner, coarse to fine beam sampling, high signal to noise: the brightest
+    # pixel is then up to 2**(2/b**2) below the peak (b = beam FWHM in pixels) and the fit needs room for that
+    for bp in (3.0, 4.0, 5.0, 6.0):
+        for hs in (500.0, 5000.0):
+            sp = dict(pa=30.0, ratio=1.3, corner=True, hisnr=hs, beam_pix=bp)
+            bad, cls, detail = closed_loop(11, 1, elongated=sp)
+            rep.validated_runs(1)
+            if bad:
+                rep.finding('C01/K-closed-loop/corner-centred(beam=%gpx,snr=%g):%s' % (bp, hs, cls), dict(seed=11, special=sp), detail)
+    # elongated beams: sources across, along and oblique to the beam whose minor axis is narrower than the beam's major axis
+    for br in (1.3, 1.6, 2.0):
+        for spa in (90.0, 75.0, 0.0, 45.0):
+            sp = dict(pa=spa, ratio=1.5, minor=1.05, beam_ratio=br)
+            bad, cls, detail = closed_loop(12, 1, elongated=sp)
+            rep.validated_runs(1)
+            if bad:
+                rep.finding('C01/K-closed-loop/elongated-beam(ratio=%g,source pa=%g):%s' % (br, spa, cls), dict(seed=12, special=sp), detail)
     # orientation x axis-ratio sweep (every 15 degrees); thorough: more ratios and positions, and many random injections
     ratios, seeds = ((1.5, 2.5, 3.0, 3.5, 4.0), (5, 6, 7, 8, 9)) if thorough else ((1.5, 2.5, 3.5), (5, 6, 7))
     for pa_ in range(-90, 90, 15):
